@@ -66,13 +66,16 @@ def gen_world(rng, max_len=400, force_faults=None):
             rates[pick(rng, FAULT_KINDS)] = pick(rng, RATES)
     n_src = rng.randint(1, 3)
     queues = []
+    repetitive = rng.random() < 0.3      # a source that keeps sending the same few messages
     for _ in range(n_src):
         q = []
+        pool = [model.gen_msg(rng, types, sysex_max=pick(rng, (4, 12))) for _ in range(rng.randint(1, 2))]
         for _ in range(rng.randint(1, 6)):
-            d = model.gen_msg(rng, types, sysex_max=pick(rng, (4, 12, 40)))
+            d = pick(rng, pool) if repetitive else model.gen_msg(rng, types, sysex_max=pick(rng, (4, 12, 40)))
             q.append(list(mido.Message(**d).bytes()))
         queues.append(q)
-    cfg = {'kind': 'sources', 'types': mixname, 'sources': n_src, 'rates': {k: round(v, 4) for k, v in rates.items()}}
+    cfg = {'kind': 'sources', 'types': mixname, 'sources': n_src, 'repetitive': repetitive,
+           'rates': {k: round(v, 4) for k, v in rates.items()}}
 
     # merger: whole messages, unless the merger fails (byte-wise mix of two sources)
     wire = []
@@ -276,6 +279,103 @@ def _eq(a, b):
         return False
 
 
+def snap(m):
+    """Plain-data snapshot of a message (type, attributes, time): immune to later mutation of the object
+    or of anything it may secretly share with other objects."""
+    try:
+        d = model.msg_to_dict(m)
+    except Exception:
+        return ('?', repr(m))
+    return (d['type'], tuple(sorted((k, tuple(v) if isinstance(v, list) else v) for k, v in d.items()
+                                    if k != 'type')), getattr(m, 'time', None))
+
+
+def mutate_received(m):
+    """What a consumer may do with a message it received: edit it in place (valid values only)."""
+    try:
+        t = m.type
+        if t in ('note_on', 'note_off', 'polytouch'):
+            m.note = (m.note + 12) % 128
+            m.channel = (m.channel + 5) % 16
+        elif t == 'control_change':
+            m.control = (m.control + 1) % 128
+            m.value = 127 - m.value
+        elif t in ('program_change',):
+            m.program = (m.program + 1) % 128
+        elif t == 'aftertouch':
+            m.value = (m.value + 1) % 128
+        elif t == 'pitchwheel':
+            m.pitch = 0 if m.pitch else 100
+        elif t == 'sysex':
+            m.data = [1, 2, 3]
+        elif t == 'songpos':
+            m.pos = (m.pos + 1) % 16384
+        elif t == 'song_select':
+            m.song = (m.song + 1) % 128
+        elif t == 'quarter_frame':
+            m.frame_value = (m.frame_value + 1) % 16
+        m.time = 4242
+    except Exception:
+        pass
+
+
+def background(kind, data, stats):
+    """Other, unrelated use of the library in the same process (must not influence the parser under test)."""
+    stats['fault:background_' + kind] += 1
+    try:
+        if kind == 'from_bytes_time':
+            for enc in _split_encodings(data)[:6]:
+                try:
+                    mido.Message.from_bytes(enc, time=77)
+                except ValueError:
+                    pass
+        elif kind == 'bad_parse_all':
+            try:
+                mido.parse_all(list(data[:8]) + [0xF0, 1, 2, 300])
+            except (ValueError, TypeError):
+                pass
+            try:
+                Parser().feed([0x90, 0x40, -1])
+            except (ValueError, TypeError):
+                pass
+        elif kind == 'parse_other':
+            mido.parse_all([0x90, 0x10] + list(data[:5]) + [0xF0, 0x7D])
+            mido.parse([0xB0, 1])
+        elif kind == 'midifile':
+            import io
+            msgs = []
+            for enc in _split_encodings(data)[:6]:
+                try:
+                    m = mido.Message.from_bytes(enc, time=120)
+                except ValueError:
+                    continue
+                if m.type not in model.RT_TYPES:
+                    msgs.append(m)
+            mf = mido.MidiFile(tracks=[mido.MidiTrack(msgs)])
+            buf = io.BytesIO()
+            mf.save(file=buf)
+            mido.MidiFile(file=io.BytesIO(buf.getvalue()))
+    except Exception as e:     # background activity on valid data must not fail either, but it is not what is judged
+        stats['background_raised:' + type(e).__name__] += 1
+
+
+def _split_encodings(data):
+    """Cut a byte list at status bytes (a rough split, good enough to find some whole encodings)."""
+    out = []
+    cur = []
+    for b in data:
+        if b >= 0x80 and b != 0xF7 and cur:
+            out.append(cur)
+            cur = []
+        cur.append(b)
+    if cur:
+        out.append(cur)
+    return out
+
+
+BG_KINDS = ('from_bytes_time', 'bad_parse_all', 'parse_other', 'midifile')
+
+
 # --------------------------------------------------------------------------- engine
 
 class WireEngine(BaseEngine):
@@ -300,15 +400,62 @@ class WireEngine(BaseEngine):
             plan['cfg'] = cfg
             plan['faults_fired'] = dict(fired)
             return plan
+        if idx % 40 == 7:
+            # two threads, each feeding its own parser (or calling parse_all): independent users of the library
+            from .ports_conc import ENGINE as PC
+            w2, _, _ = gen_world(rng, max_len=40)
+            plan = PC.gen_twin(prop, seed, idx, [wire[:40], w2], rng)
+            plan['mode'] = 'twin_threads'
+            plan['cfg'] = cfg
+            return plan
+        if idx % 1500 == 11:
+            # bulk: thousands of short messages in one stream (queue and buffer limits)
+            n = rng.randint(4200, 9000)
+            alpha = (0xF8, 0xFA, 0xFE, 0xF6, 0xF8, 0xF8)
+            wire = []
+            while len(wire) < n:
+                if rng.random() < 0.8:
+                    wire.append(pick(rng, alpha))
+                else:
+                    wire.extend(mido.Message(**model.gen_msg(rng, model.CHANNEL_TYPES)).bytes())
+            cfg = {'kind': 'bulk', 'bytes': len(wire)}
+            fired = collections.Counter({'bulk_stream': 1})
         if prop == 'C04':
             mode = weighted(rng, (('parser', 6), ('parse_all', 1), ('port_old', 1), ('port_new', 1), ('pq', 1)))
         else:
             mode = weighted(rng, (('parser', 7), ('port_old', 1), ('port_new', 1), ('pq', 1)))
-        ops = gen_ops(rng, len(wire), consumer=(mode != 'parse_all'), allow_ctor=(mode == 'parser'))
+        if cfg.get('kind') == 'bulk':
+            mode = 'parser'
+            ops = [['feed', pick(rng, ('list', 'bytes')), pick(rng, (len(wire), len(wire) // 2 + 1))]]
+        else:
+            ops = gen_ops(rng, len(wire), consumer=(mode != 'parse_all'), allow_ctor=(mode == 'parser'))
         if mode == 'parse_all':
             ops = [['feed', 'list', len(wire)]]
-        return {'prop': prop, 'mode': mode, 'wire': wire, 'ops': ops, 'cfg': cfg,
-                'faults_fired': dict(fired)}
+        plan = {'prop': prop, 'mode': mode, 'wire': wire, 'ops': ops, 'cfg': cfg,
+                'faults_fired': dict(fired), 'mutate': rng.random() < 0.3}
+        if mode != 'parse_all' and cfg.get('kind') != 'bulk':
+            extra = []
+            if rng.random() < 0.25:
+                tw, _, _ = gen_world(rng, max_len=60)
+                plan['twin_wire'] = tw
+                for s in gen_chunks(rng, len(tw)):
+                    extra.append(['twin_feed', s])
+                    if rng.random() < 0.3:
+                        extra.append(['twin_get'])
+            if rng.random() < 0.25:
+                for _ in range(rng.randint(1, 3)):
+                    extra.append(['bg', pick(rng, BG_KINDS)])
+            if extra:
+                # interleave, keeping the relative order of both lists
+                merged = []
+                a, b = list(ops), extra
+                while a or b:
+                    if a and (not b or rng.random() < len(a) / (len(a) + len(b))):
+                        merged.append(a.pop(0))
+                    else:
+                        merged.append(b.pop(0))
+                plan['ops'] = merged
+        return plan
 
     def _gen_prefix(self, rng):
         cls = pick(rng, PREFIX_CLASSES)
@@ -358,11 +505,13 @@ class WireEngine(BaseEngine):
         return {'prop': 'C06', 'prefix_class': cls, 'prefix': prefix, 'msgs': msgs, 'rt': rts,
                 'chunks_p': gen_chunks(rng, len(prefix)) if prefix else [],
                 'chunks_full': gen_chunks(rng, total),
-                'how': pick(rng, HOWS + ('parse_all',))}
+                'how': pick(rng, HOWS + ('parse_all',)),
+                'mutate': rng.random() < 0.3,
+                'bg': [pick(rng, BG_KINDS) for _ in range(rng.randint(1, 4))] if rng.random() < 0.3 else []}
 
     # ---------------- execution
     def run(self, prop, plan, keep_log=False):
-        if plan.get('mode') == 'pq_threads':
+        if plan.get('mode') in ('pq_threads', 'twin_threads'):
             from .ports_conc import ENGINE as PC
             out = PC.run(prop, plan, keep_log=keep_log)
             for k, v in plan.get('faults_fired', {}).items():
@@ -405,14 +554,14 @@ class WireEngine(BaseEngine):
         ref_all = ref_cnt = None
         if prop == 'C05':
             try:
-                ref_all = list(Parser(list(wire))) if wire else []
+                ref_all = [snap(m) for m in Parser(list(wire))] if wire else []
                 p2 = Parser()
                 ref_cnt = [0]
                 acc = 0
                 bytewise = []
                 for b in wire:
                     p2.feed_byte(b)
-                    got = list(p2)
+                    got = [snap(m) for m in p2]
                     acc += len(got)
                     bytewise.extend(got)
                     ref_cnt.append(acc)
@@ -420,7 +569,7 @@ class WireEngine(BaseEngine):
                 stats['ref_raised'] += 1
                 log.ev('ref-raised', type(e).__name__)
                 return
-            if len(bytewise) != len(ref_all) or not all(_eq(a, b) for a, b in zip(bytewise, ref_all)):
+            if bytewise != ref_all:
                 raise Violation('whole-vs-bytewise', f'feeding all at once gave {ref_all!r}, '
                                                      f'feeding byte by byte gave {bytewise!r}')
         if mode == 'parse_all':
@@ -449,17 +598,45 @@ class WireEngine(BaseEngine):
                         raise Violation(f'fifo-extra@{where}', f'{where} returned {m!r} but the model queue is '
                                                               f'empty (fed {fed} bytes, retrieved {len(retrieved)})')
                     exp = ref_all[len(retrieved)]
-                    if not _eq(m, exp):
+                    if snap(m) != exp:
                         raise Violation(f'fifo-mismatch@{where}', f'{where} returned {m!r}, model head is {exp!r} '
                                                                  f'(fed {fed}, retrieved {len(retrieved)})')
                 retrieved.append(m)
                 if prop == 'C04':
                     self._c04_check(wire, fed, [m], c04_state, stats)
+                if plan.get('mutate'):
+                    mutate_received(m)      # the consumer edits what it got; later messages must not care
+                    stats['fault:consumer_mutates_message'] += 1
 
+            twin = None
+            twin_fed = 0
+            twin_got = []
+            twin_wire = plan.get('twin_wire') or []
+            if twin_wire:
+                try:
+                    twin_ref = [snap(m) for m in Parser(list(twin_wire))]
+                except Exception:
+                    twin_ref = None
+                twin = Parser()
             for op in plan['ops'] + [['feed', 'list', n], ['drain']]:
                 kind = op[0]
                 stats['steps'] += 1
-                if kind == 'feed':
+                if kind == 'bg':
+                    background(op[1], wire, stats)
+                    log.ev('bg', op[1])
+                elif kind == 'twin_feed':
+                    if twin is not None and twin_fed < len(twin_wire):
+                        part = twin_wire[twin_fed:twin_fed + op[1]]
+                        twin_fed += len(part)
+                        self._call('twin.feed', twin.feed, part)
+                        stats['fault:second_parser_fed_in_between'] += 1
+                        log.ev('twin_feed', len(part))
+                elif kind == 'twin_get':
+                    if twin is not None:
+                        m = self._call('twin.get', twin.get_message)
+                        if m is not None:
+                            twin_got.append(snap(m))
+                elif kind == 'feed':
                     size = min(op[2], n - fed)
                     if size <= 0:
                         continue
@@ -531,6 +708,13 @@ class WireEngine(BaseEngine):
                     log.ev('drain', k)
                     if exp_n is not None and k != exp_n:
                         raise Violation('drain-count-mismatch', f'drain yielded {k}, model had {exp_n} pending')
+            if twin is not None and twin_ref is not None:
+                self._call('twin.feed', twin.feed, twin_wire[twin_fed:])
+                twin_got.extend(snap(m) for m in self._call('twin.drain', list, twin))
+                if twin_got != twin_ref:
+                    raise Violation('second-parser-disturbed', f'a second, independent parser fed {bytes(twin_wire).hex(" ")} '
+                                                               f'in pieces between the feeds of the first one yielded '
+                                                               f'{twin_got!r}; alone it yields {twin_ref!r}')
             # end of stream: everything was fed and drained
             if prop == 'C05':
                 if len(retrieved) != len(ref_all):
@@ -669,13 +853,23 @@ class WireEngine(BaseEngine):
                 enc = enc2
             expected_tail.append(m)
             stream.extend(enc)
-        a = self._parse_chunked('prefix', prefix, plan['chunks_p'], how if how != 'parse_all' else 'list')
+        expected_tail = [snap(m) for m in expected_tail]
+        for k in plan.get('bg', [])[:2]:
+            background(k, stream, stats)
+        a_objs = self._parse_chunked('prefix', prefix, plan['chunks_p'], how if how != 'parse_all' else 'list')
+        a = [snap(m) for m in a_objs]
         log.ev('prefix', plan['prefix_class'], len(prefix), [repr(x) for x in a])
-        b = self._parse_chunked('full', stream, plan['chunks_full'], how)
+        if plan.get('mutate'):
+            for m in a_objs:
+                mutate_received(m)
+            stats['fault:consumer_mutates_message'] += 1
+        for k in plan.get('bg', [])[2:]:
+            background(k, stream, stats)
+        b = [snap(m) for m in self._parse_chunked('full', stream, plan['chunks_full'], how)]
         log.ev('full', len(stream), [repr(x) for x in b])
         stats['steps'] += 2
         expected = a + expected_tail
-        if len(b) != len(expected) or not all(_eq(x, y) for x, y in zip(b, expected)):
+        if b != expected:
             kinds = 'rt-in-sysex' if by_msg else ('clean-concat' if not prefix else 'prefix')
             raise Violation(f'resync:{kinds}',
                             f'parse(P)={a!r}; parse(P+enc(M..)) gave {b!r}, expected {expected!r} '
@@ -703,7 +897,7 @@ class WireEngine(BaseEngine):
 
     # ---------------- shrinking
     def shrink(self, prop, plan):
-        if plan.get('mode') == 'pq_threads':
+        if plan.get('mode') in ('pq_threads', 'twin_threads'):
             from .ports_conc import ENGINE as PC
             yield from PC.shrink(prop, plan)
             if 'wire' in plan:
@@ -713,6 +907,10 @@ class WireEngine(BaseEngine):
             yield from shrink_list_at(plan, ('msgs',), min_len=1)   # rt indices are re-validated at run time
             yield from shrink_list_at(plan, ('rt',))
             yield from shrink_list_at(plan, ('prefix',))
+            if plan.get('bg'):
+                yield from shrink_list_at(plan, ('bg',))
+            if plan.get('mutate'):
+                yield replace_at(plan, ('mutate',), False)
             if plan['chunks_full']:
                 yield replace_at(plan, ('chunks_full',), [])
             if plan['chunks_p']:
@@ -728,6 +926,10 @@ class WireEngine(BaseEngine):
             return
         yield from shrink_list_at(plan, ('ops',))
         yield from shrink_list_at(plan, ('wire',))
+        if plan.get('twin_wire'):
+            yield from shrink_list_at(plan, ('twin_wire',))
+        if plan.get('mutate'):
+            yield replace_at(plan, ('mutate',), False)
         for i, op in enumerate(plan['ops']):
             if op[0] == 'feed' and op[1] != 'list':
                 yield replace_at(plan, ('ops', i, 1), 'list')
